@@ -394,7 +394,40 @@ func (c *Ctx) ruleClock(rule string) {
 			fk := c.FK(fn)
 			c.R.Note("functions", fk)
 			key := fk + "|" + name
+			isNow := func(v ssa.Value) bool {
+				v = ir.Resolve(v)
+				for _, nc := range nowCalls {
+					if v == nc {
+						return true
+					}
+				}
+				return false
+			}
 			isRefresh := func(ins ssa.Instruction) bool {
+				// a bookkeeping helper that always stores the time stamp it is given
+				if cc, ok := ins.(ssa.CallInstruction); ok {
+					cal := ir.Callee(cc).Static
+					if cal == nil || cal == fn || len(cal.Blocks) == 0 || load_FuncPkgPath(cal) != load_FuncPkgPath(fn) {
+						return false
+					}
+					for i, a := range cc.Common().Args {
+						if i < len(cal.Params) && isNow(a) {
+							p := cal.Params[i]
+							missedStore := false
+							ir.Search{StopInstr: func(i2 ssa.Instruction) bool {
+								return isStoreToField(i2, name) && ir.Resolve(i2.(*ssa.Store).Val) == ssa.Value(p)
+							}}.Reach([]ir.Point{{Block: cal.Blocks[0], Idx: 0}}, func(i2 ssa.Instruction, _ *ssa.BasicBlock) {
+								if _, isRet := i2.(*ssa.Return); isRet {
+									missedStore = true
+								}
+							})
+							if !missedStore {
+								return true
+							}
+						}
+					}
+					return false
+				}
 				st, ok := ins.(*ssa.Store)
 				if !ok {
 					return false
